@@ -207,6 +207,16 @@ def make_spec(
         elif outputs == "feeds-rev":
             r3 = b.add({"t": "sum", "in": [root2], "k": kout, "w": sumw})
             outs = [r3, root2]
+        elif outputs == "sub":
+            # outputs over different sub-scopes: the root and the layer of the first sub-region of the root
+            first = region(tree[1][0] if tree[0] == "P" else tree[1][0][0])
+            if b.layers[first].get("k", kin if b.layers[first]["t"] not in ("had", "kro", "sum") else None) is None:
+                sub_units = ksum
+            else:
+                sub_units = b.layers[first].get("k")
+            if sub_units != kout:
+                return None
+            outs = [root2, first]
         elif outputs == "inner":
             # the region layer itself (ksum units) is an output together with a same-size sum over it
             if kout != ksum:
@@ -215,7 +225,7 @@ def make_spec(
     else:
         if outputs == "two":
             return None
-        if outputs in ("feeds", "feeds-rev", "inner"):
+        if outputs in ("feeds", "feeds-rev", "inner", "sub"):
             return None
     spec = {"layers": b.layers, "outputs": outs}
     if cplx:
